@@ -6,6 +6,10 @@ package fzf
 //
 //   TestVerifShellQuote   E: strings from MC_Shell (Gen_ShellQuote*.cfg) through Executor.QuoteEntry (POSIX and fish
 //                         escaper) and escapeSingleQuote; the quoted forms are handed to every real shell
+//                         and, for every cell of the ($SHELL, --with-shell) matrix of MC_Shell (VERIF_CELLS), through
+//                         the executor NewExecutor builds under that cell; what the POSIX-evaluated cells quote is
+//                         handed to the program their own ExecCommand starts
+//   TestVerifShellCells   E: the matrix itself: the command prefix of every cell's ExecCommand
 //   TestVerifShellLex     E: command lines the shell model calls inert (Gen_ShellLex*.cfg) handed to the real shells
 //   TestVerifShellExpand  E: (template, terminal state) pairs from MC_ShellExpand through the real
 //                         Terminal.buildPlusList + Terminal.replacePlaceholder, expansion handed to the real shells
@@ -376,6 +380,160 @@ func vsExecutors() (posix *util.Executor, fish *util.Executor) {
 	return
 }
 
+// ---------------------------------------------------------------- the ($SHELL, --with-shell) matrix
+
+// One cell of MC_Shell's table, as TLC printed it.  Style / Ev are the specification's statements about the cell; the
+// harness uses Ev only to know which cells it may hand to a real shell (fish is not installed).
+type vsCell struct {
+	Id    int      `json:"id"`
+	Set   bool     `json:"set"`
+	Shell string   `json:"shell"`
+	Ws    string   `json:"ws"`
+	Style string   `json:"style"`
+	Ev    string   `json:"ev"`
+	Argv  []string `json:"argv"`
+}
+
+type vsCellExec struct {
+	cell  vsCell
+	x     *util.Executor
+	argv  []string // what the real ExecCommand puts before the command line
+	key   string   // argv joined by blanks
+	batch []string // argv of the same program reading a script file instead of -c COMMAND (nil: not possible)
+}
+
+// vsCellExecs builds, one after the other, the executor fzf would build under every cell: $SHELL set / unset in this
+// process, --with-shell handed to NewExecutor.  The environment is restored afterwards.
+func vsCellExecs(t *testing.T) []vsCellExec {
+	path := os.Getenv("VERIF_CELLS")
+	if path == "" {
+		return nil
+	}
+	data, err := os.ReadFile(path)
+	if err != nil {
+		t.Fatal(err)
+	}
+	var cells []vsCell
+	if err := json.Unmarshal(data, &cells); err != nil || len(cells) == 0 {
+		t.Fatalf("VERIF_CELLS: %v", err)
+	}
+	old, had := os.LookupEnv("SHELL")
+	out := make([]vsCellExec, len(cells))
+	for i, c := range cells {
+		if c.Set {
+			os.Setenv("SHELL", c.Shell)
+		} else {
+			os.Unsetenv("SHELL")
+		}
+		x := util.NewExecutor(c.Ws)
+		args := x.ExecCommand("X", false).Args
+		argv := append([]string{}, args[:len(args)-1]...)
+		ce := vsCellExec{cell: c, x: x, argv: argv, key: strings.Join(argv, " ")}
+		if len(argv) >= 2 && argv[len(argv)-1] == "-c" {
+			ce.batch = argv[:len(argv)-1]
+		}
+		out[i] = ce
+	}
+	if had {
+		os.Setenv("SHELL", old)
+	} else {
+		os.Unsetenv("SHELL")
+	}
+	return out
+}
+
+func TestVerifShellCells(t *testing.T) {
+	out := verifOpenOut(t)
+	defer out.Close()
+	cells := vsCellExecs(t)
+	byId := map[int]vsCellExec{}
+	for _, c := range cells {
+		byId[c.cell.Id] = c
+	}
+	i := 0
+	verifReadCases(t, func(line []byte) error {
+		var c vsCell
+		if err := json.Unmarshal(line, &c); err != nil {
+			return err
+		}
+		ce, ok := byId[c.Id]
+		if !ok {
+			return fmt.Errorf("cell %d not in VERIF_CELLS", c.Id)
+		}
+		out.Put(map[string]interface{}{"id": i, "got": map[string]interface{}{"argv": ce.argv}})
+		i++
+		return nil
+	})
+}
+
+// vsMatrixQuote: every string through the executor of every cell.  xs[i]: quoted form -> 0/1 mask of the cells that
+// gave it; ev[i]: command prefix -> quoted form -> what the program started by that prefix read (cells the
+// specification calls POSIX-evaluated only).
+func vsMatrixQuote(t *testing.T, cells []vsCellExec, strs []string) (xs []map[string]string, ev []map[string]map[string]interface{}) {
+	type ref struct {
+		i   int
+		out string
+	}
+	type keyJob struct {
+		sh    vsShell
+		ok    bool
+		lines []string
+		refs  []ref
+	}
+	jobs := map[string]*keyJob{}
+	var order []string
+	xs = make([]map[string]string, len(strs))
+	ev = make([]map[string]map[string]interface{}, len(strs))
+	for i, s := range strs {
+		masks := map[string][]byte{}
+		seen := map[string]bool{}
+		ev[i] = map[string]map[string]interface{}{}
+		for ci, c := range cells {
+			o := c.x.QuoteEntry(s)
+			m := masks[o]
+			if m == nil {
+				m = bytes.Repeat([]byte{'0'}, len(cells))
+				masks[o] = m
+			}
+			m[ci] = '1'
+			if c.cell.Ev != "posix" || seen[c.key+"\x00"+o] {
+				continue
+			}
+			seen[c.key+"\x00"+o] = true
+			j := jobs[c.key]
+			if j == nil {
+				j = &keyJob{sh: vsShell{Name: c.key, Argv: c.batch}, ok: c.batch != nil}
+				jobs[c.key] = j
+				order = append(order, c.key)
+			}
+			if ev[i][c.key] == nil {
+				ev[i][c.key] = map[string]interface{}{}
+			}
+			j.lines = append(j.lines, o)
+			j.refs = append(j.refs, ref{i, o})
+		}
+		xs[i] = map[string]string{}
+		for o, m := range masks {
+			xs[i][vsEncode(o)] = string(m)
+		}
+	}
+	dir := t.TempDir()
+	for _, k := range order {
+		j := jobs[k]
+		if !j.ok {
+			for _, r := range j.refs {
+				ev[r.i][k][vsEncode(r.out)] = "ERR: command prefix does not end in -c"
+			}
+			continue
+		}
+		res := vsEvalLines(j.sh, dir, j.lines, nil)
+		for n, r := range j.refs {
+			ev[r.i][k][vsEncode(r.out)] = vsEvalJSON(res[n])
+		}
+	}
+	return
+}
+
 // ---------------------------------------------------------------- E: quoting
 
 func TestVerifShellQuote(t *testing.T) {
@@ -385,13 +543,15 @@ func TestVerifShellQuote(t *testing.T) {
 	type qcase struct {
 		S string `json:"s"`
 	}
-	var ps, fs, es, lines []string
+	cells := vsCellExecs(t)
+	var ps, fs, es, lines, strs []string
 	verifReadCases(t, func(line []byte) error {
 		var c qcase
 		if err := json.Unmarshal(line, &c); err != nil {
 			return err
 		}
 		s := vsDecode(c.S)
+		strs = append(strs, s)
 		p, f, e := posix.QuoteEntry(s), fish.QuoteEntry(s), escapeSingleQuote(s)
 		ps, fs, es = append(ps, p), append(fs, f), append(es, e)
 		// MC_Shell!QuoteLine: both quoted forms as words of their own, and one glued between letters
@@ -399,9 +559,17 @@ func TestVerifShellQuote(t *testing.T) {
 		return nil
 	})
 	sh := vsAllShells(t, lines, nil)
+	var xs []map[string]string
+	var ev []map[string]map[string]interface{}
+	if cells != nil {
+		xs, ev = vsMatrixQuote(t, cells, strs)
+	}
 	for i := range lines {
-		out.Put(map[string]interface{}{"id": i, "got": map[string]interface{}{
-			"p": vsEncode(ps[i]), "f": vsEncode(fs[i]), "e": vsEncode(es[i]), "sh": sh[i]}})
+		got := map[string]interface{}{"p": vsEncode(ps[i]), "f": vsEncode(fs[i]), "e": vsEncode(es[i]), "sh": sh[i]}
+		if cells != nil {
+			got["xs"], got["ev"] = xs[i], ev[i]
+		}
+		out.Put(map[string]interface{}{"id": i, "got": got})
 	}
 }
 
@@ -562,6 +730,38 @@ type vsRecIn struct {
 	Sel   []int      `json:"sel"`
 	Q     []string   `json:"q"`
 	Fp    bool       `json:"fp"`
+	Cells []int      `json:"cells"` // cells of the matrix (ids) this input is also expanded / run under
+}
+
+// wire form of a cell for the judge: a path is the list of its elements, --with-shell the list of its words
+func vsPathElems(p string) []string { return strings.Split(p, "/") }
+
+func vsCellWire(c vsCell) (shell []string, ws [][]string) {
+	shell = []string{}
+	if c.Set {
+		shell = vsPathElems(c.Shell)
+	}
+	ws = [][]string{}
+	for _, w := range strings.Fields(c.Ws) {
+		ws = append(ws, vsPathElems(w))
+	}
+	return
+}
+
+// the real way a command reaches the shell: Executor.ExecCommand; returns the arguments the wrapper saw
+func vsExecWords(x *util.Executor, dir string, line string) [][]string {
+	cmd := x.ExecCommand(vsWrapper+"; w "+line, false)
+	cmd.Dir = dir
+	cmd.Env = []string{"PATH=/nonexistent", "LC_ALL=C"}
+	var stderr bytes.Buffer
+	cmd.Stderr = &stderr
+	o, err := cmd.Output()
+	fields := strings.Split(string(o), "\x00")
+	n, e := strconv.Atoi(fields[0])
+	if err != nil || stderr.Len() > 0 || e != nil || len(fields) != n+2 || fields[n+1] != "" {
+		return [][]string{{"!ERR-not-one-plain-command"}}
+	}
+	return vsAllToSyms(fields[1 : n+1])
 }
 
 func TestVerifShellRecord(t *testing.T) {
@@ -570,8 +770,10 @@ func TestVerifShellRecord(t *testing.T) {
 	shells := vsShells(t)
 	dir := t.TempDir()
 	// the executors fzf would build for these shells: $SHELL for a bare path, --with-shell for one with flags
+	cells := vsCellExecs(t)
 	execs := make([]*util.Executor, len(shells))
 	old := os.Getenv("SHELL")
+	os.Setenv("SHELL", "/bin/sh")
 	for i, sh := range shells {
 		if len(sh.Argv) == 1 {
 			os.Setenv("SHELL", sh.Argv[0])
@@ -614,24 +816,29 @@ func TestVerifShellRecord(t *testing.T) {
 						argv[sh.Name] = [][]string{{"!ERR-executors-differ"}}
 						continue
 					}
-					// the real way a command reaches the shell
-					cmd := execs[k].ExecCommand(vsWrapper+"; w "+x, false)
-					cmd.Dir = dir
-					cmd.Env = []string{"PATH=/nonexistent", "LC_ALL=C"}
-					var stderr bytes.Buffer
-					cmd.Stderr = &stderr
-					o, err := cmd.Output()
-					fields := strings.Split(string(o), "\x00")
-					n, e := strconv.Atoi(fields[0])
-					if err != nil || stderr.Len() > 0 || e != nil || len(fields) != n+2 || fields[n+1] != "" {
-						argv[sh.Name] = [][]string{{"!ERR-not-one-plain-command"}}
-						continue
+					argv[sh.Name] = vsExecWords(execs[k], dir, x)
+				}
+			}
+			// the same input under cells of the ($SHELL, --with-shell) matrix: the executor built under that cell
+			// expands, and - where the specification says a POSIX shell evaluates - its own ExecCommand runs the line
+			runs := []map[string]interface{}{}
+			if valid {
+				for _, id := range c.Cells {
+					ce := cells[id]
+					shell, ws := vsCellWire(ce.cell)
+					_, xc := vsExpand(st, tmpl, ce.x)
+					run := map[string]interface{}{"set": ce.cell.Set, "shell": shell, "ws": ws, "x": vsToSyms(xc),
+						"ran": false, "argv": [][]string{}}
+					if ce.cell.Ev == "posix" {
+						run["ran"] = true
+						run["argv"] = vsExecWords(ce.x, dir, xc)
 					}
-					argv[sh.Name] = vsAllToSyms(fields[1 : n+1])
+					runs = append(runs, run)
 				}
 			}
 			recs[i] = map[string]interface{}{"kind": "expand", "t": c.T, "items": c.Items, "ix": c.Ix, "cur": c.Cur,
-				"sel": c.Sel, "q": c.Q, "fp": c.Fp, "valid": valid, "x": vsToSyms(x), "argv": argv}
+				"sel": c.Sel, "q": c.Q, "fp": c.Fp, "valid": valid, "x": vsToSyms(x), "argv": argv, "runs": runs,
+				"cells": append([]int{}, c.Cells...)}
 		}(i)
 	}
 	wg.Wait()
